@@ -1,7 +1,7 @@
 (* C17  Members of private ancestors surface once in public subclasses. *)
 From Coq Require Import List String Ascii ZArith. Import ListNotations.
 From Coq Require Import List Bool.
-From SV Require Import Lib.Str Model.Types Model.Naming Model.Api Model.Back Proofs.GenProofs.
+From SV Require Import Lib.Str Model.Types Model.Naming Model.Api Model.Back Proofs.GenProofs Proofs.ChainProofs.
 
 (* the `sub` clause lists the public superclasses in declaration order and never a private one *)
 Theorem C17_sub_clause : forall classes rmap inline sups names text s r s',
@@ -30,8 +30,25 @@ Theorem C17_private_named_members_stay_hidden : forall m ic already,
   f_public m = false -> is_internal (f_name m) = true -> method_skipped ic already m = true.
 Proof. exact internal_named_method_skipped. Qed.
 
+(* precedence along a chain of private ancestors: a level renders only names that neither the subclass nor a nearer ancestor has
+   defined, every name it renders is reported (and handed on as `set_union already existing`), and whatever has been handed on is
+   skipped farther up - so along a chain every name is shown at most once and by the nearest definition *)
+Theorem C17_rendered_names_are_new : forall classes rmap nc ms inner ic already s r s',
+  class_method_string classes rmap nc ms inner ic already s = Ok (r, s') ->
+  forall n, In n (snd r) -> ~ In n already /\ exists m, In m ms /\ f_name m = n /\ method_skipped ic already m = false.
+Proof. exact rendered_names_are_new. Qed.
+Theorem C17_rendered_names_are_reported : forall classes rmap nc ms inner ic already s r s' m,
+  class_method_string classes rmap nc ms inner ic already s = Ok (r, s') ->
+  In m ms -> method_skipped ic already m = false -> In (f_name m) (snd r).
+Proof. exact rendered_names_are_reported. Qed.
+Theorem C17_nearer_definition_wins : forall ic already existing m,
+  In (f_name m) already \/ In (f_name m) existing -> method_skipped ic (set_union already existing) m = true.
+Proof. exact nearer_definition_wins. Qed.
 Print Assumptions C17_sub_clause.
 Print Assumptions C17_no_private_in_sub.
 Print Assumptions C17_rendered_methods.
 Print Assumptions C17_own_definition_wins.
 Print Assumptions C17_private_named_members_stay_hidden.
+Print Assumptions C17_rendered_names_are_new.
+Print Assumptions C17_rendered_names_are_reported.
+Print Assumptions C17_nearer_definition_wins.
